@@ -189,6 +189,10 @@ class Lib:
         return [(p, VList([VStr(k) for k in recv.d]))]
       if name == 'values':
         return [(p, VList(list(recv.d.values())))]
+    if isinstance(recv, VListRef):
+      if name == 'append':
+        p.lists[recv.lid]['elem'] = args[0]
+        return [(p, VNone())]
     if isinstance(recv, VList):
       if name == 'append':
         recv.items.append(args[0])     # python lists are path-local values here (no aliasing across forks: see Path.fork)
